@@ -164,6 +164,35 @@ def c08_2(c: Ctx) -> None:
                 continue
             c.fail(u, f'terminal result update outside execute_handler: {U(call)[:80]}', f'a handler result is finalised from {u.qualname}, outside the one-terminal-update protocol of execute_handler', node=call)
     c.floor(n_sites, 7, 'result update call sites')
+    # the result map and the child lists only grow: entries are created once (get-or-create) and never deleted / replaced
+    creator = c.unit(MOD, 'BaseEvent.event_result_update')
+    disp = c.unit(SVC, 'EventBus.dispatch')
+    n_mut = 0
+    for w in c.cg.all_writes('event_results'):
+        if w.unit.module not in (SVC, MOD) or w.how.endswith('@item'):
+            continue  # `results[k].update(..)` mutates the record (governed above), not the map
+        n_mut += 1
+        if w.unit.key == creator.key and w.how == 'subscript' and isinstance(w.node, ast.Assign):
+            g2 = c.cfg(creator)
+            key = U(w.node.targets[0].slice)
+            recv = U(w.node.targets[0].value)
+            facts = Facts(lambda a: a == f'{key} in {recv}', cg=c.cg, unit=creator)
+            bad = [p for n in g2.nodes_of(w.node) if (p := q.guard_search(g2, n, f'{key} not in {recv}', facts)) is not None]
+            if not bad:
+                c.ok(where(creator, w.node), f'result records are created only when absent ({key} not in {recv})')
+            else:
+                c.fail(creator, 'result record (re)created without a `not in event_results` guard', 'an existing (possibly finished) result record is replaced', node=w.node, witness=c.path(g2.entry, bad[0]))
+        else:
+            c.fail(w.unit, f'mutates event_results ({w.how}): {U(w.node)[:70]}', f'result records are removed / replaced in {w.unit.qualname}: results of a (completed) event change, handlers can run again', node=w.node)
+    for w in c.cg.all_writes('event_children'):
+        if w.unit.module not in (SVC, MOD):
+            continue
+        n_mut += 1
+        if w.unit.key == disp.key and w.how == 'append':
+            c.ok(where(disp, w.node), 'child lists only grow (append in dispatch)')
+        else:
+            c.fail(w.unit, f'mutates event_children ({w.how}): {U(w.node)[:70]}', f'recorded children are removed / rewritten in {w.unit.qualname}: completion of the parent no longer depends on them', node=w.node)
+    c.floor(n_mut, 2, 'mutations of event_results / event_children')
 
 
 def predicate_reads(c: Ctx) -> set[str]:
